@@ -26,3 +26,18 @@ s = re.sub(r'<!-- SEED-TABLE-BEGIN -->.*<!-- SEED-TABLE-END -->', '<!-- SEED-TAB
 open(p, 'w').write(s)
 n = len(rows); c = sum(1 for r in rows if '| — |' not in r.split('|')[3] + '|')
 print(f"{n} seeds")
+
+# ---- list of the clauses added after the first rule tables (from props/extra_*.go) ----
+import importlib.util
+spec = importlib.util.spec_from_file_location('gm', '/verif/tools/gen_manifest_lib.py')
+gm = importlib.util.module_from_spec(spec); spec.loader.exec_module(gm)
+extra = gm.extra_clauses()
+lines = []
+for pid in sorted(extra):
+    lines.append(f"* **{pid}** — " + ' '.join(extra[pid]))
+blk = "\n".join(lines)
+s = open(p).read()
+if '<!-- EXTRA-RULES-BEGIN -->' in s:
+    s = re.sub(r'<!-- EXTRA-RULES-BEGIN -->.*<!-- EXTRA-RULES-END -->', lambda m: '<!-- EXTRA-RULES-BEGIN -->\n' + blk + '\n<!-- EXTRA-RULES-END -->', s, flags=re.S)
+    open(p, 'w').write(s)
+print(f"{len(extra)} properties with added clauses")
